@@ -6,6 +6,7 @@
 -/
 import QExPy.Lemmas.UnitParse
 import QExPy.Lemmas.PrintAst
+import QExPy.Lemmas.DefReqs
 
 namespace QExPy
 open U
@@ -61,6 +62,29 @@ theorem C13_roundtrip (u : Units) (frac : Bool) (hne : u ≠ []) (hw : WF u) (hz
     obtain ⟨v, h1, h2, h3⟩ := parse_complete (fracE u) (fracE_ok u) (fracE_lex u hs' hpn) _
       (fracE_text u hs' hpn)
     exact ⟨v, h1, h2, fun s => by rw [h3 s, fracE_den u hw hz]⟩
+
+/-- **C13 (round trip after a history).** The domain of C13 is "no compound-unit definitions
+    active" — at the moment the unit is printed.  Whatever was defined (and printed) earlier in
+    the session: once the definitions have been cleared, and only rejected definitions followed,
+    the printer works on no definitions and the string it writes for `u` is accepted back with
+    the exponents of `u`.  (The printer of the model has no other state: the display style is an
+    argument of `unitProp`, so earlier prints and style switches cannot matter.) -/
+theorem C13_roundtrip_after_history (rs rs' : List DefReq)
+    (hrej : ∀ r ∈ rs', r.accepted = false) (u : Units) (frac : Bool) (hne : u ≠ []) (hw : WF u)
+    (hz : NoZero u) (hs : symsOK u = true) :
+    ∃ v, parse (unitProp (runReqs [] (rs ++ DefReq.clear :: rs')) frac u) = some v ∧ WF v ∧
+      Equiv v u := by
+  rw [runReqs_clear_then_rejected [] rs rs' hrej]
+  exact C13_roundtrip u frac hne hw hz hs
+
+/-- non-vacuity: N is defined, the definition is cleared, a malformed definition is rejected -/
+example : runReqs [] ([.define "N".toList "kg*m/s^2".toList] ++ DefReq.clear ::
+    [.define "N".toList "kg*m/s^2)".toList]) = [] :=
+  runReqs_clear_then_rejected [] _ _ (by
+    intro r hr
+    simp only [List.mem_singleton] at hr
+    subst hr
+    decide +kernel)
 
 /-- **C13 (assignment).** `b.unit = a.unit` in the model is `parse (unitProp a._unit)`: it
     succeeds, and what `b` then prints is accepted again with the same exponents (so the unit can
